@@ -504,6 +504,11 @@ func findEnd(r []rune, i, end int) int {
 // findStringEnd finds end of the string, returning end if not found.
 func findStringEnd(seq []rune, pos, end int) (int, bool) {
 	var char rune
+
+	if pos >= end {
+		return pos, false
+	}
+
 	quote := seq[pos]
 
 	for pos++; pos < end; pos++ {
